@@ -373,6 +373,13 @@ def run(ctx):
                 ctx.sample({"plain": repr(v)[:150]})
             if ctx.enough():
                 break
+        # equal values of different exact types, one after the other over the same connection (all orders of sending)
+        for i in range(ctx.budget(400, 100000)):
+            if ctx.enough(10):
+                break
+            for j, v in enumerate(gen.gen_twin_family(rng)):
+                check_value(ctx, pair, state, root, v, "twin#%d.%d" % (i, j), brine)
+                ctx.count("equal_values_of_different_types_in_sequence")
         for i in range(ctx.budget(2000, 500000)):
             if ctx.enough(10):
                 break
